@@ -784,6 +784,15 @@ def build_queries(model):
     keeps = AND(S("=", cf["namespace"].start, ns2.start), S("=", cf["namespace"].len, ns2.len), S("=", cf["topic"].start, tp2.start), S("=", cf["topic"].len, tp2.len))
     qs.append(("create_equals_is_valid", "exists (ns,tp): create(ns,tp) panics, or is Ok differently from is_valid(ns,tp), or stores other fields",
                ctx2, [shape2, OR(cout.panic, S("xor", cout.ok, valid2), AND(cout.ok, NOT(keeps)))], "s", "create must accept exactly the valid pairs"))
+    # ---- witnesses (each must be SAT, otherwise the encoding is vacuous)
+    ctx, s, out = fresh()
+    qs.append(("wit_some_name_accepted", "some string is accepted", ctx, [out.ok], "s", "witness"))
+    ctx, s, out = fresh()
+    qs.append(("wit_max_length_accepted", "a name with two 64-character parts is accepted", ctx,
+               [out.ok, S("=", out.ok_fields["namespace"].len, 64), S("=", out.ok_fields["topic"].len, 64)], "s", "witness"))
+    ctx, s, out = fresh()
+    qs.append(("wit_some_error_returned", "some non-empty string is rejected with an error (no panic)", ctx,
+               [out.err_any(), S(">", ctx.bases["s"][1], 3)], "s", "witness"))
     return qs, n, complete
 
 
@@ -801,7 +810,7 @@ REPLAY_TEMPLATE = r'''// C07 witness replay: generated by /verif/engines/smt/top
 // expectation: {expect}
 use selium_protocol::TopicName;
 fn main() {{
-    let s: String = {chars:?}.iter().map(|c| char::from_u32(*c).unwrap()).collect();
+    let s: String = {chars}.iter().map(|c| char::from_u32(*c).unwrap()).collect();
     let query = "{query}";
     let r = std::panic::catch_unwind(|| TopicName::try_from(s.as_str()).map(|t| (t.namespace().to_owned(), t.topic().to_owned(), t.to_string(), t.is_valid())));
     println!("input = {{:?}}", s);
@@ -879,6 +888,7 @@ def analyse(timeout=600, dump=None, cross=False, jobs=8, only=None):
                     verdicts[sname]["output"] = out[-300:]
             vs = {x["verdict"] for x in verdicts.values()}
             q = {"name": name, "desc": desc, "expect": expect, "solvers": verdicts, "smt_assertions": len(ctx.asserts) + len(asserts)}
+            q["is_witness"] = name.startswith("wit_")
             if vs == {"unsat"}:
                 q["result"] = "unsat"
             elif "sat" in vs and "unsat" not in vs:
@@ -899,10 +909,13 @@ def analyse(timeout=600, dump=None, cross=False, jobs=8, only=None):
         res["reason"] = str(e)
     res["wall_s"] = round(time.time() - t0, 2)
     if res["status"] != "inconclusive":
-        if any(q["result"] in ("inconclusive", "disagree") for q in res["queries"]):
+        if any(q["result"] != "sat" for q in res["queries"] if q.get("is_witness")):
+            res["status"] = "inconclusive"
+            res["reason"] = "vacuity: witness query not satisfiable: " + ", ".join(q["name"] for q in res["queries"] if q.get("is_witness") and q["result"] != "sat")
+        elif any(q["result"] in ("inconclusive", "disagree") for q in res["queries"]):
             res["status"] = "inconclusive"
             res["reason"] = "; ".join(f"{q['name']}: {q['result']} {q['solvers']}" for q in res["queries"] if q["result"] in ("inconclusive", "disagree"))
-        elif any(q["result"] == "sat" for q in res["queries"]):
+        elif any(q["result"] == "sat" for q in res["queries"] if not q.get("is_witness")):
             res["status"] = "failed"
     return res
 
